@@ -6,7 +6,8 @@ COMMON_ASSUME = [
 
 PROPS = {
     "C08": {
-        "gen": ["Pyramid", "Study"],
+        "props_files": ["C08", "C08Px"],
+        "gen": ["Pyramid", "Study", "Masks", "PIO"],
         "trusted_base": ["numpy slicing / np.ndarray.fill / PIL, astropy.io.fits, np.save codecs are exercised, not modelled"],
         "assumptions": COMMON_ASSUME + ["sub-images are non-empty (width, height >= 1); the code also admits empty ones, which tile nothing"],
         "partial": "",
@@ -18,6 +19,7 @@ PROPS["C13"] = {
     "trusted_base": ["a tile filter is a deterministic function of the tile's position (tiles are functions of positions: C04)"],
     "assumptions": COMMON_ASSUME,
     "partial": "",
+    "props_files": ["C13", "Reducer"],
 }
 
 PROPS["C20"] = {
@@ -103,7 +105,8 @@ PROPS["C01"] = {
                      "a tile filter is a deterministic function of the tile's position",
                      "termination of the parallel walk under fairness is observed on every explored schedule (hangs are detected by the simulator), not yet a theorem"],
     "assumptions": COMMON_ASSUME + ["callbacks do not raise (C19)"],
-    "partial": "termination under fairness (par_walk_progress) is checked by exploration only; the prologue/serial-walk refinement (red_refines_fold) is in Props/C01Red where proved",
+    "partial": "termination under fairness (par_walk_progress) is checked by exploration only; the reducer / prologue refinement is proved for generic (sub-)pyramids, whole TOAST pyramids and TOAST sub-pyramids with an accepted ancestor line and a leaf (Props/Reducer, Props/C01Red); the degenerate nothing-to-do configurations are covered by differential execution only",
+    "props_files": ["C01", "Reducer", "C01Red"],
 }
 
 PROPS["C19"] = {
@@ -206,7 +209,7 @@ LEVEL_TEXT = {
     },
     "C01": {
         "text": "Bit/slot formulas, the release test, the seeding level and the stop test of _walk_parallel are re-extracted each run. A phase-based transition system (every tile waiting / in the ready queue / held, running, finished in a worker / in the done queue / retired; dispatcher with 4-bit readiness masks) is proved, for every number of workers and every interleaving, to keep an invariant relating masks to retired children; corollaries: whenever a callback is about to start, the callbacks of all live non-leaf children have completed (also as an ordering statement on the callback log); callbacks start at most once and only for live non-leaf tiles of the sub-pyramid; when walk has returned all workers have exited and the set of started = completed callbacks is exactly the live non-leaf tiles. The real Pyramid.walk is run serially, under a deterministic scheduler (2-4 workers, biased random schedules) and with real processes on generated pyramids (all depth-1 filters, gappy filters, sub-pyramids); every simulated trace is replayed through the Lean transition function starting from the model's own prologue (its reduction iterator), and every callback log is checked against the property.",
-        "note": "trusted: Lean kernel; the multiprocessing semantics; simmp; fact extraction; the abstract configuration Cfg is what the prologue must deliver (ops duplicate-free and closed under parents up to the apex, seeds = ops one level above the leaves, pre-readied bits = dead children) — its derivation from the reducer is Props/C01Red.",
+        "note": "trusted: Lean kernel; the multiprocessing semantics; simmp; fact extraction. Props/Reducer proves that the reduction iterator computes the bottom-up fold over the tree of yielded positions (no assertion trips, every node is shown exactly the values of its accepted children); Props/C01Red derives from it that the model's prologue delivers Cfg with ops = the positions of the serial walk, for generic (sub-)pyramids, whole (filtered) TOAST pyramids and TOAST sub-pyramids, and states the protocol theorems end to end (par_walk_generic, par_walk_toast, par_walk_toast_sub).",
         "technique": "Lean 4 proof (inductive invariant over all interleavings) + trace refinement checked by execution",
     },
     "C10": {
@@ -261,12 +264,12 @@ LEVEL_TEXT = {
     },
     "C13": {
         "text": "Kernel-checked theorems for every depth and position: parent/child/slot inverses, is_subtile = shift relation = iterated parent (incl. its ValueError case), generate_pos is duplicate-free, yields exactly the in-scope positions, every position after its four children, and has the code's closed-form counts (depth2tiles / tiles_at_depth, incl. depth2tiles(-1)=0). pos_parent / pos_children / slot and bit formulas are re-extracted from pyramid.py each run and bridged to the model by lemmas. The executable model of the generators and of PyramidReductionIterator is run against the real classes (yield sequence incl. child data, results, visits) on every accept-set of depth 1 and random hierarchical accept-sets x apexes.",
-        "note": "trusted: Lean kernel; py2lean; the harness. A filter is modelled as a function of the position. Statements about filtered counters rest on red_refines_fold (Props/C01) where proved, and on the model/implementation correspondence otherwise.",
+        "note": "trusted: Lean kernel; py2lean; the harness. A filter is modelled as a function of the position. Props/Reducer (kernel-checked): the reduction iterator never trips an assertion on a generator's output and yields every node with the values of its accepted children; serial visit_leaves = the yielded positions of the target level, serial walk = the yielded non-leaf positions with a leaf below, both in post-order, for generic (sub-)pyramids and whole TOAST pyramids.",
         "technique": "Lean 4 proof (induction over the quadtree) + differential execution of the model",
     },
     "C08": {
         "text": "Kernel-checked theorems (all widths/heights/sub-images, no bound) about the StudyTiling arithmetic as translated from study.py on every run: smallest power-of-two square >= 256, centring, every image pixel in exactly one in-tile rectangle, rectangles inside tiles and image, count = length, image_to_tile agreement, sub-images share geometry. The translation is executed differentially against the Python functions, and the real tiler's files are read back and reassembled for every format/mode class.",
-        "note": "trusted: Lean kernel; py2lean translator (differentially executed); numpy slice assignment and the codecs (exercised by read-back, not modelled). The pixel-level 'reassemble' statement rests on the fill model of Model/Pixels (C15) plus the row formulas extracted from tile_image.",
+        "note": "trusted: Lean kernel; py2lean translator (differentially executed); numpy slice assignment and the codecs (exercised by read-back, not modelled). Props/C08Px states the pixel level: what every written tile shows at each display position for every mode and both parities (`tile_display_pixel`), and that the tiles reassemble to the image centred in the square with everything else undefined (`reassemble`), over the generated fill semantics of C15 and the extracted row formulas.",
         "technique": "Lean 4 proof over source-extracted definitions + differential execution",
     },
 }
